@@ -617,6 +617,16 @@ func ruleJRN3(w *World, r *Report) {
 				out = append(out, expand(h, o, depth+1)...)
 			}
 		}
+		// a helper whose errors are all its own (a validator that refuses with messages of its own) is named itself
+		named := false
+		for _, o := range out {
+			if o.obj != nil {
+				named = true
+			}
+		}
+		if !named {
+			return []errOrigin{src}
+		}
 		return out
 	}
 	seenKey := map[string]bool{}
